@@ -178,7 +178,7 @@ pub fn resolve_constant(
     }
 
 
-    if symbol.value != prev_value
+    if !symbol.value.is_identical(&prev_value)
     {
         // On the final iteration, unstable guesses become errors
         if ctx.is_last_iteration
